@@ -29,7 +29,7 @@ ASSUMPTIONS = [
     "dedicated shard",
 ]
 GATES = {
-    "bilateral_clamped_by_image": 1, "margin_parameter_left_to_its_default": 5, "bilateral_default_after_an_explicit_sigma_space": 2,
+    "bilateral_clamped_by_image": 1, "step_gt_1_with_a_suffixed_matching_cost_and_a_filter": 2, "margin_parameter_left_to_its_default": 5, "bilateral_default_after_an_explicit_sigma_space": 2,
     "noncumulative_dominates": 1,
     "cumulative_dominates": 1,
     "step_gt_1": 1,
@@ -294,10 +294,13 @@ def run_case(case, ctx):
         step = int(rng.integers(1, 4))
         kinds = ["matching_cost"] + (["aggregation"] if rng.random() < 0.3 else []) + ["disparity"]
         kinds += [["filter", "refinement", "filter"][int(x)] for x in rng.integers(0, 3, int(rng.integers(0, 4)))]
-        keys = pipes.keys_for(kinds)
+        sfx = [None, set(kinds), {"matching_cost"}][case["i"] % 3]
+        keys = pipes.keys_for(kinds, suffix_first=sfx, style=["num", "alpha", "dotted", "word"][(case["i"] // 3) % 4])
         shape = SHAPES[int(rng.integers(0, len(SHAPES)))]
         params = draw_params(rng, keys, shape)
         params[keys[0]]["step"] = step
+        ctx.gate("step_gt_1_with_a_suffixed_matching_cost_and_a_filter",
+                 int(step > 1 and keys[0] != "matching_cost" and any(pipes.kind_of(k) == "filter" for k in keys)))
         pipe = pipes.instantiate(keys, params=params)
         got, m = _check_margins(ctx, case, keys, pipe, shape, step=step)
         ctx.case(["step", keys, params, shape])
